@@ -26,3 +26,8 @@ fn k_in_4_field_maybe_changed_after() {
     std::mem::forget(z);
     std::mem::forget(ing);
 }
+
+/// The field ingredient `field_index` of the harness input struct registered at `struct_index`.
+pub(crate) fn new_field(struct_index: IngredientIndex, field_index: usize) -> FieldIngredientImpl<KI> {
+    FieldIngredientImpl::<KI>::new(struct_index, field_index)
+}
